@@ -38,7 +38,7 @@ def essential_labels(tier):
 
 @st.composite
 def cases(draw, tier):
-    cfg = tg.Cfg(tier, big_weight=8, ref_weight=5, roots=("struct", "struct", "array", "array", "string"))
+    cfg = tg.Cfg(tier, big_weight=8, allow_huge=True, ref_weight=5, roots=("struct", "struct", "array", "array", "string"))
     spec = draw(tg.type_specs(cfg))
     value = c01.special_values(draw, spec, cfg)
     p = draw(pl.placements())
